@@ -68,3 +68,59 @@ Ltac nzne :=
     intro Hz; apply H; field_simplify_eq; [ lra | nz ]
   end.
 Ltac nzz := nz; try nzpos; try nzne.
+
+(* ---- shared by the jacobian / tangent-operator proofs of C42 and C43 (moved from C43Lib.v) ---- *)
+(* the argument of the first square root / exp / Rpower / ln of the body of the local definition T *)
+Ltac first_sqrt_arg T := let t := eval unfold T in T in match t with context[sqrt ?b] => b end.
+Ltac first_exp_arg T := let t := eval unfold T in T in match t with context[exp ?b] => b end.
+Ltac first_rpower_base T := let t := eval unfold T in T in match t with context[Rpower ?b _] => b end.
+
+(* Hs : 0 < a with a the specification's form of the argument of the square roots of the traced jacobian, whose unfolded
+   body is the local definition T: the form b of T is named (sb), Hs is restated on it (a = b by field), q := sqrt sb is
+   introduced with Hq : 0 < q, and the continuation runs with sb and q *)
+Ltac with_sqrt T Hs k :=
+  let b := first_sqrt_arg T in
+  let sb := fresh "sb" in let q := fresh "q" in let Hq := fresh "Hq" in
+  set (sb := b) in *;
+  match type of Hs with 0 < ?a => replace a with sb in * by (unfold sb; field; repeat split; assumption) end;
+  assert (Hq : 0 < sqrt sb) by (apply sqrt_lt_R0; exact Hs);
+  set (q := sqrt sb) in *;
+  k sb q.
+
+(* 0 < a * / b from 0 < a, 0 < b; conjunctions; hypotheses; linear arithmetic *)
+Ltac pos1 := first [ exact I | assumption | lra
+                   | apply Rmult_lt_0_compat; [ lra | apply Rinv_0_lt_compat; lra ]
+                   | apply Rgt_not_eq; apply Rmult_lt_0_compat; [ lra | apply Rinv_0_lt_compat; lra ]
+                   | apply Rgt_not_eq; assumption
+                   | apply exp_pos
+                   | apply Rgt_not_eq; apply exp_pos ].
+Ltac pos_side := repeat split; pos1.
+
+(* rows a .. a+n-1 of a matrix statement *)
+Lemma forall_pairs_from (P : nat -> nat -> Prop) a n m :
+  Forall (fun p => P (fst p) (snd p)) (list_prod (List.seq a n) (List.seq 0 m)) ->
+  forall i j, (a <= i < a + n)%nat -> (j < m)%nat -> P i j.
+Proof.
+  intros H i j Hi Hj. rewrite Forall_forall in H.
+  apply (H (i, j)). apply in_prod; apply in_seq; lia.
+Qed.
+Ltac forall_pairs_from_tac tac :=
+  apply forall_pairs_from; cbn [list_prod List.seq map app];
+  repeat (apply Forall_cons; [ cbn [fst snd]; tac | ]); apply Forall_nil.
+
+(* two blocks of rows make the whole matrix *)
+Lemma rows_split (P : nat -> nat -> Prop) a n m :
+  (forall i j, (0 <= i < 0 + a)%nat -> (j < m)%nat -> P i j) ->
+  (forall i j, (a <= i < a + (n - a))%nat -> (j < m)%nat -> P i j) ->
+  forall i j, (i < n)%nat -> (j < m)%nat -> P i j.
+Proof. intros HA HB i j Hi Hj. destruct (Nat.lt_ge_cases i a); [ apply HA | apply HB ]; lia. Qed.
+
+Lemma rows_split3 (P : nat -> nat -> Prop) a b n m :
+  (forall i j, (0 <= i < 0 + a)%nat -> (j < m)%nat -> P i j) ->
+  (forall i j, (a <= i < a + (b - a))%nat -> (j < m)%nat -> P i j) ->
+  (forall i j, (b <= i < b + (n - b))%nat -> (j < m)%nat -> P i j) ->
+  forall i j, (i < n)%nat -> (j < m)%nat -> P i j.
+Proof.
+  intros HA HB HC i j Hi Hj. destruct (Nat.lt_ge_cases i a); [ apply HA; lia | ].
+  destruct (Nat.lt_ge_cases i b); [ apply HB | apply HC ]; lia.
+Qed.
